@@ -202,6 +202,10 @@ def run(ctx, prog):
                        'snapshot restore on that path, or there is none')
     ctx.rule('C16-D2', 'the same, entered through process() of every analysis class')
     ctx.assume('only explicit raise statements and caught allocation failures are rejection points; implicit library exceptions are not modelled')
+    from .. import desugar
+    ds = desugar.desugar_with(prog, ('scared.distinguishers', 'scared.analysis', 'scared.ttest'))
+    if ds:
+        ctx.note(f'with-statements over repository context managers desugared to try/except: {ds}')
     allc, concrete = universe.distinguisher_classes(prog)
     universe_classes = list(concrete)
     if ctx.tier == 'thorough':
